@@ -477,6 +477,59 @@ fn run_blinding_reuse(cx: &mut CaseCx, _case: &Value) {
   cx.outcome("blinding reuse");
 }
 
+
+/// E-env on the blinding: the blinding factor is a function of the client's OS entropy alone - and of at least
+/// its first 128 bits. Same scripted entropy => same blinded request (whatever the input was before); each
+/// single-bit variant of the first 16 bytes => a new blinded request (pairwise distinct).
+fn run_blinding_entropy(cx: &mut CaseCx, _case: &Value) {
+  for input in [&b"entropy probe"[..], b""] {
+    let base = prbytes(0xB11D, 64);
+    let point = |script: &[u8]| -> Option<([u8; 32], u64)> {
+      getrandom::verif::set_script(script);
+      let before = getrandom::verif::total_bytes();
+      let r = guard(|| pp::Client::blind(input).0);
+      let used = getrandom::verif::total_bytes() - before;
+      getrandom::verif::clear_script();
+      r.ok().map(|p| (*p.as_bytes(), used))
+    };
+    let (p0, used) = match point(&base) {
+      Some(x) => x,
+      None => return,
+    };
+    cx.count("entropy_bytes_per_blinding", used);
+    cx.eval();
+    // another request in between, then the same entropy again
+    let _ = point(&prbytes(0xB11E, 64));
+    if point(&base).map(|x| x.0) != Some(p0) {
+      cx.viol("C12/blinding-depends-on-history", "with identical entropy the same input is blinded to another point: the blinding factor depends on something else than the client's fresh entropy", json!({"input": hexs(input)}));
+      return;
+    }
+    cx.count("replayed_entropy_gives_same_request", 1);
+    let mut seen: HashMap<[u8; 32], String> = HashMap::new();
+    seen.insert(p0, "base".into());
+    for byte in 0..16 {
+      for bit in [0x01u8, 0x10, 0x80] {
+        let mut b = base.clone();
+        b[byte] ^= bit;
+        cx.eval();
+        cx.nontrivial(fnv_str(&format!("{}|{}|{}", hexs(input), byte, bit)));
+        if let Some((p, _)) = point(&b) {
+          if let Some(prev) = seen.insert(p, format!("byte {} ^ {:#04x}", byte, bit)) {
+            cx.viol(
+              "C12/blinding-ignores-entropy",
+              format!("two requests whose OS entropy differs (byte {} ^ {:#04x} vs {}) are blinded to the SAME point: the blinding factor does not use at least 128 bits of the entropy it is given ({} bytes consumed per blinding), so requests for one input repeat and can be linked", byte, bit, prev, used),
+              json!({"byte": byte, "bit": bit, "entropy_bytes_consumed": used, "input": hexs(input)}),
+            );
+            return;
+          }
+        }
+      }
+    }
+    cx.count("entropy_variants_distinct", 48);
+  }
+  cx.outcome("blinding uses its entropy");
+}
+
 /// unbounded repetitions (bounded here: 300) of one request on one thread stay fresh
 fn run_freshness(cx: &mut CaseCx, _case: &Value) {
   cx.entropy(950);
@@ -654,6 +707,7 @@ pub fn spec() -> PropSpec {
         min_counts: &[("process_histories_agree", 11)],
       },
       Check { name: "blinding-reuse", rule: "ONE blinded request and ONE blinding factor used 12 times per input (2 servers x 3 tags, then the same in reverse order; alternately with a proof): every unblinded answer finalises to the output of a fresh single-use exchange with that server and tag (3 inputs incl. empty)", gen: |_| vec![json!({})], run: run_blinding_reuse, min_counts: &[("reused_blinding_ok", 36)] },
+      Check { name: "blinding-entropy", rule: "E-env: scripted 64-byte entropy answer for Client::blind (2 inputs): the same answer gives the same blinded request (also after another request in between); each of 48 single-bit variants in the first 16 bytes gives a new blinded request, pairwise distinct (a blinding factor drawn from fewer than 128 bits of entropy repeats after 2^k requests, far beyond any repetition count)", gen: |_| vec![json!({})], run: run_blinding_entropy, min_counts: &[("entropy_variants_distinct", 96), ("replayed_entropy_gives_same_request", 2)] },
       Check { name: "repeated-requests", rule: "300 consecutive requests for two alternating inputs on one thread under fresh entropy: all blinded points pairwise distinct", gen: |_| vec![json!({})], run: run_freshness, min_counts: &[("fresh_requests", 300)] },
       Check {
         name: "finalize-sensitivity",
